@@ -197,6 +197,7 @@ type RPCRecord struct {
 	Proc     string
 	Client   int
 	Calls    []string // storage calls made while handling it
+	Done     []string // ... and those that have returned
 	Fault    string
 	DBFault  string
 	Err      string
@@ -674,6 +675,9 @@ func (w *World) deliver(ctx context.Context, method, url string, hdr http.Header
 	if aborted {
 		return nil, nil, ErrNetDropped
 	}
+	if g.dead {
+		return nil, nil, ErrCrashed // the process died while the request was in flight
+	}
 	resp := rr.Result()
 	rb, _ := io.ReadAll(resp.Body)
 	resp.Body = io.NopCloser(bytes.NewReader(rb))
@@ -890,6 +894,11 @@ func (h *dbHooks) After(ctx context.Context, method string, tok int, args []any,
 	if ti == nil {
 		return nil
 	}
+	if ti.fg && ti.rec != nil {
+		w.mu.Lock()
+		ti.rec.Done = append(ti.rec.Done, method)
+		w.mu.Unlock()
+	}
 	if len(w.observers) > 0 {
 		ev := DBEvent{Task: ti.name, FG: ti.fg, Method: method, Args: args, Rets: rets}
 		w.mu.Lock()
@@ -1044,4 +1053,29 @@ func (w *World) notePanic(where string, pv any, stack string) {
 	w.PanicInfo = append(w.PanicInfo, fmt.Sprintf("%v\n%s", pv, trimStack(stack)))
 	w.mu.Unlock()
 	w.Stats.Probes["recovered_panic"]++
+}
+
+// inPushCheckpointWindow: is some request in flight that has stored its changes but not
+// yet the client's checkpoint (finding push-checkpoint-atomicity)?
+func (w *World) inPushCheckpointWindow() bool {
+	w.mu.Lock()
+	defer w.mu.Unlock()
+	for _, rec := range w.RPCs {
+		if rec.Status != 0 || rec.Err != "" {
+			continue // answered
+		}
+		stored, acked := false, false
+		for _, c := range rec.Done {
+			if c == "CreateChangeInfos" {
+				stored = true
+			}
+			if c == "UpdateClientInfoAfterPushPull" {
+				acked = true
+			}
+		}
+		if stored && !acked {
+			return true
+		}
+	}
+	return false
 }
